@@ -175,6 +175,14 @@ def shrink_seq(prop, case, pred, budget=150):
     return cur
 
 
+def own_signature(prop, sig):
+    """Oracle signatures are prefixed with the property they belong to (`c13:…`); generic ones
+    (panic, hang, abort, transport) belong to every property."""
+    import re
+    m = re.match(r"^c(\d\d):", sig)
+    return m is None or ("C" + m.group(1)) == prop
+
+
 class Check:
     def __init__(self, prop, tier, seed):
         self.prop, self.tier, self.seed = prop, tier, seed
@@ -210,7 +218,8 @@ class Check:
             if orc and self.stream_serves(name):
                 fails += orc(l, a)
             for sig, msg in fails:
-                self.oracle_fail.append((sig, msg, dict(mode="pure", stream=name, ops=[l], impl=[a], model=[b])))
+                if own_signature(self.prop, sig):
+                    self.oracle_fail.append((sig, msg, dict(mode="pure", stream=name, ops=[l], impl=[a], model=[b])))
             if a != b:
                 if name == "tracker" and not self.tracker_relevant(l, a, b):
                     self.unattributed += 1
@@ -252,7 +261,8 @@ class Check:
             if nontrivial:
                 self.distinct.add(case_hash(c))
             for sig, msg in oracles.run_seq_oracle(self.prop, c, impl, sides):
-                self.oracle_fail.append((sig, msg, dict(mode="seq", stream=profile, ops=c, impl=impl, model=model)))
+                if own_signature(self.prop, sig):
+                    self.oracle_fail.append((sig, msg, dict(mode="seq", stream=profile, ops=c, impl=impl, model=model)))
             j = first_diff(impl, model)
             if j is not None:
                 op = c[j].split()[0] if c[j].split() else ""
@@ -308,7 +318,8 @@ class Check:
             if any(a.startswith(("ok", "msgs")) for l, a in zip(c, ans) if l.split() and l.split()[0] in self.cfg["relevant"]):
                 self.distinct.add(case_hash(c + sd))
             for sig, msg in oracles.run_seq_oracle(self.prop, c, ans, sd, conc=True):
-                self.oracle_fail.append((sig, msg, dict(mode="conc", stream=profile, ops=c, impl=ans, model=[])))
+                if own_signature(self.prop, sig):
+                    self.oracle_fail.append((sig, msg, dict(mode="conc", stream=profile, ops=c, impl=ans, model=[])))
         if crashed:
             self.oracle_fail.append(("abort:conc", "the harness process died while running conc/%s" % profile,
                                      dict(mode="conc", stream=profile, ops=lines[:50], impl=[], model=[])))
